@@ -40,6 +40,7 @@
 package main
 
 import (
+	"bufio"
 	"bytes"
 	"crypto"
 	"crypto/ecdsa"
@@ -53,6 +54,7 @@ import (
 	"crypto/x509/pkix"
 	"fmt"
 	"net"
+	"net/http"
 	"os"
 	"runtime"
 	"sort"
@@ -61,6 +63,7 @@ import (
 	"sync"
 	"time"
 
+	"github.com/google/martian/v3"
 	"github.com/google/martian/v3/cybervillains"
 	mlog "github.com/google/martian/v3/log"
 	"github.com/google/martian/v3/mitm"
@@ -105,8 +108,9 @@ func msCeil(t time.Time) int64 {
 }
 
 type reqOp struct {
-	kind   byte // G or H
+	kind   byte // G, H or X (through a real martian.Proxy)
 	scope  string
+	rw     string // X only: what a CONNECT request modifier rewrites req.URL.Host to ("" = leaves it alone)
 	api    string
 	sni    string
 	fb     string
@@ -118,10 +122,14 @@ func unhexS(s string) string { return string(hx.MustUnHex(s)) }
 
 func parseReq(tok string) (reqOp, bool) {
 	p := strings.Split(tok, ":")
-	if len(p) != 7 || (p[0] != "G" && p[0] != "H") {
+	if len(p) != 7 || (p[0] != "G" && p[0] != "H" && p[0] != "X") {
 		return reqOp{}, false
 	}
 	r := reqOp{kind: p[0][0], scope: p[1], api: p[2], sni: unhexS(p[3]), fb: unhexS(p[4]), vname: unhexS(p[5])}
+	if r.kind == 'X' {
+		// X:<scope>:<rewrite-hex>:<sni>:<CONNECT authority>:<vname>:<others>
+		r.api, r.rw = "F", unhexS(p[2])
+	}
 	if p[6] != "" {
 		for _, o := range strings.Split(p[6], ",") {
 			r.others = append(r.others, unhexS(o))
@@ -135,7 +143,11 @@ func (r reqOp) token() string {
 	for i, o := range r.others {
 		os[i] = hx.HexS(o)
 	}
-	return fmt.Sprintf("%c:%s:%s:%s:%s:%s:%s", r.kind, r.scope, r.api, hx.HexS(r.sni), hx.HexS(r.fb), hx.HexS(r.vname), strings.Join(os, ","))
+	api := r.api
+	if r.kind == 'X' {
+		api = hx.HexS(r.rw)
+	}
+	return fmt.Sprintf("%c:%s:%s:%s:%s:%s:%s", r.kind, r.scope, api, hx.HexS(r.sni), hx.HexS(r.fb), hx.HexS(r.vname), strings.Join(os, ","))
 }
 
 // session = one mitm.Config and the per-case canonicalisation state.
@@ -152,6 +164,107 @@ type session struct {
 	sharedT  *tls.Config
 	sharedFB string
 	tvBefore bool // verification time = just before the call (sound under concurrent expiry)
+	// PROXY cases: a real martian.Proxy with SetMITM(cfg) on a loopback listener
+	proxy     *martian.Proxy
+	proxyAddr string
+	proxyL    net.Listener
+	byDER     map[string]*tls.Certificate
+}
+
+const rewriteHeader = "X-Verif-Rewrite-Url-Host"
+
+// startProxy: martian.Proxy + MITM + a CONNECT request modifier that rewrites
+// req.URL.Host (as url.Modifier / port.Modifier / a routing modifier do; they
+// leave req.Host alone) to what the client's X-Verif-Rewrite-Url-Host says.
+func (s *session) startProxy() error {
+	l, err := net.Listen("tcp", "127.0.0.1:0")
+	if err != nil {
+		return err
+	}
+	p := martian.NewProxy()
+	p.SetMITM(s.cfg)
+	p.SetTimeout(5 * time.Second)
+	p.SetRequestModifier(martian.RequestModifierFunc(func(req *http.Request) error {
+		if req.Method == "CONNECT" {
+			if to := req.Header.Get(rewriteHeader); to != "" {
+				req.URL.Host = to
+			}
+		}
+		return nil
+	}))
+	go p.Serve(l)
+	s.proxy, s.proxyL, s.proxyAddr = p, l, l.Addr().String()
+	s.byDER = map[string]*tls.Certificate{}
+	s.tvBefore = true
+	return nil
+}
+
+func (s *session) stopProxy() {
+	if s.proxy != nil {
+		s.proxyL.Close()
+		done := make(chan struct{})
+		go func() { s.proxy.Close(); close(done) }()
+		select {
+		case <-done:
+		case <-time.After(5 * time.Second):
+		}
+	}
+}
+
+// doProxyReq: CONNECT <authority> through the real proxy, then a TLS
+// handshake inside the tunnel naming r.sni (or nothing); the observation is the
+// chain the proxy presented, seen from the client.
+func (s *session) doProxyReq(r reqOp) (out string) {
+	defer func() {
+		if rec := recover(); rec != nil {
+			out = "PANIC"
+		}
+	}()
+	if s.proxy == nil {
+		return "BADOP"
+	}
+	conn, err := net.DialTimeout("tcp", s.proxyAddr, 5*time.Second)
+	if err != nil {
+		return "R:dial:0:0:0"
+	}
+	defer conn.Close()
+	conn.SetDeadline(time.Now().Add(10 * time.Second))
+	hdr := "CONNECT " + r.fb + " HTTP/1.1\r\nHost: " + r.fb + "\r\n"
+	if r.rw != "" {
+		hdr += rewriteHeader + ": " + r.rw + "\r\n"
+	}
+	if _, err := conn.Write([]byte(hdr + "\r\n")); err != nil {
+		return "R:write:0:0:0"
+	}
+	br := bufio.NewReader(conn)
+	res, err := http.ReadResponse(br, &http.Request{Method: "CONNECT"})
+	if err != nil || res.StatusCode != 200 || br.Buffered() != 0 {
+		return "R:connect:0:0:0"
+	}
+	tvTime := time.Now().Truncate(time.Millisecond)
+	var chain []*x509.Certificate
+	ccfg := s.clientTLS(r, &tvTime, &chain, true)
+	t0 := time.Now()
+	cli := tls.Client(conn, ccfg)
+	herr := cli.Handshake()
+	t1 := time.Now()
+	a := answer{tb: msFloor(t0), ta: msCeil(t1), called: true}
+	ok := herr == nil
+	hs := b01(ok)
+	if len(chain) == 0 {
+		return fmt.Sprintf("R:hsfail:%d:%d:%s", a.tb, a.ta, hs)
+	}
+	s.mu.Lock()
+	c := s.byDER[string(chain[0].Raw)]
+	if c == nil {
+		c = &tls.Certificate{Leaf: chain[0]}
+		for _, x := range chain {
+			c.Certificate = append(c.Certificate, x.Raw)
+		}
+		s.byDER[string(chain[0].Raw)] = c
+	}
+	s.mu.Unlock()
+	return s.render(r, c, &ok, a, tvTime, hs)
 }
 
 func (s *session) index(c *tls.Certificate) int {
@@ -246,7 +359,13 @@ func (s *session) doReq(r reqOp) (out string) {
 	if a.err != nil || a.cert == nil {
 		return fmt.Sprintf("R:%s:%d:%d:%s", errEnum(a.err), a.tb, a.ta, hs)
 	}
-	c := a.cert
+	return s.render(r, a.cert, nil, a, tvTime, hs)
+}
+
+// render projects one presented certificate to the observation token.
+// keyProven != nil: the private key is not visible (certificate seen from the
+// client side of a proxy): possession is what the completed handshake proved.
+func (s *session) render(r reqOp, c *tls.Certificate, keyProven *bool, a answer, tvTime time.Time, hs string) string {
 	s.mu.Lock()
 	s.last = c
 	s.mu.Unlock()
@@ -277,6 +396,9 @@ func (s *session) doReq(r reqOp) (out string) {
 	pk, _ := leaf.PublicKey.(*rsa.PublicKey)
 	priv, _ := c.PrivateKey.(*rsa.PrivateKey)
 	keymatch := pk != nil && priv != nil && priv.PublicKey.Equal(pk)
+	if keyProven != nil {
+		keymatch = *keyProven
+	}
 	s.mu.Lock()
 	if s.firstPK == nil {
 		s.firstPK = pk
@@ -316,13 +438,12 @@ func b01(b bool) string {
 // verifies the presented chain for r.vname against the CA: through
 // crypto/tls' own verification when the two coincide, otherwise through
 // VerifyConnection doing the same x509 verification for vname.
-func (s *session) handshake(conf *tls.Config, r reqOp, tv *time.Time) bool {
-	cc, sc := net.Pipe()
-	defer cc.Close()
-	defer sc.Close()
-	dl := time.Now().Add(10 * time.Second)
-	cc.SetDeadline(dl)
-	sc.SetDeadline(dl)
+// clientTLS is the client side of a handshake for request r: SNI = r.sni,
+// verification of the presented chain for r.vname against the configured CA at
+// a pinned time.  manual (or SNI != verified name): the same x509
+// verification through VerifyConnection, which also lets the presented chain be
+// captured when verification fails.
+func (s *session) clientTLS(r reqOp, tv *time.Time, capture *[]*x509.Certificate, manual bool) *tls.Config {
 	fixed := *tv // non-zero: the caller pinned the verification time
 	var once sync.Once
 	now := func() time.Time {
@@ -336,12 +457,15 @@ func (s *session) handshake(conf *tls.Config, r reqOp, tv *time.Time) bool {
 	ccfg := &tls.Config{RootCAs: s.ca.roots, Time: func() time.Time { t := now(); *tv = t; return t }}
 	natural := (r.sni == r.vname && r.sni != "" && net.ParseIP(r.sni) == nil) ||
 		(r.sni == "" && net.ParseIP(r.vname) != nil)
-	if natural {
+	if natural && !manual {
 		ccfg.ServerName = r.vname
 	} else {
 		ccfg.ServerName = r.sni
 		ccfg.InsecureSkipVerify = true
 		ccfg.VerifyConnection = func(cs tls.ConnectionState) error {
+			if capture != nil {
+				*capture = cs.PeerCertificates
+			}
 			if len(cs.PeerCertificates) == 0 || r.vname == "" {
 				return fmt.Errorf("nothing to verify")
 			}
@@ -355,6 +479,17 @@ func (s *session) handshake(conf *tls.Config, r reqOp, tv *time.Time) bool {
 			return err
 		}
 	}
+	return ccfg
+}
+
+func (s *session) handshake(conf *tls.Config, r reqOp, tv *time.Time) bool {
+	cc, sc := net.Pipe()
+	defer cc.Close()
+	defer sc.Close()
+	dl := time.Now().Add(10 * time.Second)
+	cc.SetDeadline(dl)
+	sc.SetDeadline(dl)
+	ccfg := s.clientTLS(r, tv, nil, false)
 	srv := tls.Server(sc, conf)
 	cli := tls.Client(cc, ccfg)
 	errc := make(chan error, 1)
@@ -379,10 +514,13 @@ func (s *session) handshake(conf *tls.Config, r reqOp, tv *time.Time) bool {
 
 func (s *session) doOp(tok string) string {
 	switch tok[0] {
-	case 'G', 'H':
+	case 'G', 'H', 'X':
 		r, ok := parseReq(tok)
 		if !ok {
 			return "BADOP"
+		}
+		if r.kind == 'X' {
+			return s.doProxyReq(r)
 		}
 		return s.doReq(r)
 	case 'A':
@@ -566,6 +704,15 @@ func runCase(in []string) []string {
 			out = append(out, s.doOp(op))
 		}
 		out = renumber(out)
+	case "PROXY":
+		// PROXY v o X-op*: one real martian.Proxy (SetMITM) serves every CONNECT of the case
+		if err := s.startProxy(); err != nil {
+			return []string{"BADCASE"}
+		}
+		defer s.stopProxy()
+		for _, op := range ops {
+			out = append(out, s.doOp(op))
+		}
 	case "SHARED":
 		// SHARED v o n<rounds> p<pause-ms> b<fallback-hex> (T op*)+ F op*
 		if len(ops) < 3 || ops[0][0] != 'n' || ops[1][0] != 'p' || ops[2][0] != 'b' {
@@ -951,6 +1098,12 @@ func generate(cfg *hx.Config, rng *hx.RNG, concOnly bool) []genCase {
 
 	// 6. concurrent requesters: 16 threads over 4 names, a fresh *tls.Config per handshake (as proxy.go does)
 	genConc(cfg, rng, add, 6*mult, false)
+	// 8. the proxy-level path CONNECT authority -> certificate (proxy.go -> mitm.TLSForHost)
+	if cfg.Thorough() {
+		genProxy(cfg, rng, add, 40)
+	} else {
+		genProxy(cfg, rng, add, 6)
+	}
 	// 7. concurrent requesters sharing ONE TLSForHost config and ONE TLS() config, tight loops, and across an expiry
 	if cfg.Thorough() {
 		genShared(cfg, rng, add, 12, 6, 1500, false)
@@ -980,6 +1133,60 @@ func distinctNames(r *hx.RNG, n int, dnsOnly bool) []nameClass {
 		}
 	}
 	return names
+}
+
+// genProxy: a real martian.Proxy with SetMITM; CONNECT to an authority (IPv4,
+// IPv6, DNS; with port) x a CONNECT request modifier that leaves req.URL.Host
+// alone or rewrites it (other host, other port) x client with SNI / without SNI.
+// The certificate presented must be the one for what the CLIENT named (SNI if
+// sent, else the CONNECT authority), never for the rewritten routing target.
+func genProxy(cfg *hx.Config, rng *hx.RNG, add func(string, []string), n int) {
+	for k := 0; k < n; k++ {
+		r := rng.Fork()
+		v4 := ipv4s[r.Intn(len(ipv4s))]
+		v6 := ipv6s[r.Intn(len(ipv6s))]
+		dn := dnsNames[r.Intn(len(dnsNames))]
+		if r.Bool() {
+			dn = mixCase(r, dn)
+		}
+		rewrites := []string{"10.9.9.9:8443", "routed.internal:443", "[2001:db8::99]:443", "other.test:80"}
+		in := []string{"PROXY", vt(3600000, k), orgTok(r)}
+		mk := func(v string, sni bool, rw string) {
+			q := reqOp{kind: 'X', scope: "i", vname: v, others: otherFor(v), rw: rw}
+			q.fb = net.JoinHostPort(v, ports[r.Intn(len(ports))])
+			if sni {
+				q.sni = v
+				cfg.Count("proxy=sni")
+			} else {
+				cfg.Count("proxy=no-sni")
+			}
+			if rw == "" {
+				cfg.Count("proxy=url-host-untouched")
+			} else {
+				cfg.Count("proxy=url-host-rewritten")
+			}
+			in = append(in, q.token())
+		}
+		rw := func() string { return rewrites[r.Intn(len(rewrites))] }
+		mk(v4, false, "")
+		mk(v4, false, rw())
+		mk(v6, false, rw())
+		mk(v6, false, "")
+		mk(dn, true, rw())
+		mk(dn, false, rw())
+		mk(dn, true, "")
+		mk(v4, false, net.JoinHostPort(v4, "8444")) // port.Modifier: same host, other port
+		for j := r.Range(0, 3); j > 0; j-- {
+			v := []string{v4, v6, dn}[r.Intn(3)]
+			w := ""
+			if r.Bool() {
+				w = rw()
+			}
+			mk(v, v == dn && r.Bool(), w)
+		}
+		cfg.Count("class=proxy")
+		add("proxy", in)
+	}
 }
 
 func genConc(cfg *hx.Config, rng *hx.RNG, add func(string, []string), n int, race bool) {
